@@ -183,12 +183,12 @@ Proof.
 Qed.
 
 (* ---------------------------------------------------------------- withdraw *)
-Lemma withdraw_gap w w' a b amount all hb hb' ac ac' :
-  0 <= amount -> withdraw_facts w w' a b amount all hb hb' ac ac' -> hb_ok hb -> Forall wf_bal (ha_la ac) ->
+Lemma withdraw_core_gap w b amount all hb hb' ac ac' :
+  0 <= amount -> withdraw_core w b amount all hb hb' ac ac' -> hb_ok hb -> Forall wf_bal (ha_la ac) ->
   pos_le (hb_b hb) (bank_pk b) (ha_la ac) ->
   hb_ok hb' /\ Forall wf_bal (ha_la ac') /\ gap hb - acc_slack w hb - sv_slack w hb <= gap hb'.
 Proof.
-  intros Hamt (bk1 & i & bl & bk2 & bl2 & pre & paid & bk3 & Hacc & _ & Hi & Hbl & Hprim & Hpaid & Hle & Hcache & -> & -> & _) Hok Hwf Hpos.
+  intros Hamt (bk1 & i & bl & bk2 & bl2 & pre & paid & bk3 & Hacc & Hi & Hbl & Hprim & Hpaid & Hle & Hcache & -> & ->) Hok Hwf Hpos.
   unfold acc_slack, sv_slack. rewrite Hacc.
   destruct (after_accrue _ _ _ _ _ Hok Hpos Hacc) as (Hok1 & Hs & Hpos1 & Ta1 & Tl1 & Hsv1).
   destruct (located_le _ bk1 bk1 _ (hw_now w) false _ _ _ (find_as_located _ _ _ Hi) Hbl Hwf Hpos1 Ta1 Tl1) as (Wbl & _ & La & Ll).
@@ -219,6 +219,12 @@ Proof.
     split; [apply hb_ok_mk_hb; exact Hok3|]. split; [apply wf_sort_set; [assumption|split; assumption]|].
     rewrite gap_mk_hb. unfold gap, gapb. rewrite N3. unfold of_int in N1. pose proof ONE_pos. nia.
 Qed.
+Lemma withdraw_gap w w' a b amount all hb hb' ac ac' :
+  0 <= amount -> withdraw_facts w w' a b amount all hb hb' ac ac' -> hb_ok hb -> Forall wf_bal (ha_la ac) ->
+  pos_le (hb_b hb) (bank_pk b) (ha_la ac) ->
+  hb_ok hb' /\ Forall wf_bal (ha_la ac') /\ gap hb - acc_slack w hb - sv_slack w hb <= gap hb'.
+Proof. intros Hamt F. apply (withdraw_core_gap w b amount all); [exact Hamt | eapply withdraw_facts_core; exact F]. Qed.
+
 
 (* ---------------------------------------------------------------- borrow *)
 Definition fees_rep (bk : bank) : Prop := I128_MIN <= b_grp bk /\ I128_MIN <= b_prog bk.
